@@ -1,1 +1,553 @@
-harnesses! {}
+//! C02 — Intersects / Contains / Within / coordinate_position agree with DE-9IM.
+//!
+//! Instantiation `T = i16` (these impls are GeoNum-generic; integers use SimpleKernel — the float
+//! kernel's delegation is C03's subject).  Every operand is a concrete shape with symbolic grid
+//! coordinates constrained only by the property's own validity precondition; results are compared
+//! with the exact reference model of `oracle.rs`.
+use crate::gen::*;
+use crate::oracle::*;
+use crate::Src;
+use geo::coordinate_position::{CoordPos, CoordinatePosition};
+use geo::{Contains, Intersects, Within};
+use geo_types::{Geometry, MultiLineString, MultiPoint, MultiPolygon, Point, Rect, Triangle};
+
+#[inline]
+pub fn cv(p: Pos) -> CoordPos {
+    match p {
+        Pos::Interior => CoordPos::Inside,
+        Pos::Boundary => CoordPos::OnBoundary,
+        Pos::Exterior => CoordPos::Outside,
+    }
+}
+
+/// position and the Coord forms of intersects / contains must tell the same story; with
+/// `$full` also the Point forms and Within (thin wrappers: checked on the small-grid variants)
+macro_rules! check_point_queries {
+    ($g:expr, $q:expr, $want:expr, $full:expr) => {{
+        let want: Pos = $want;
+        let qc = ci($q);
+        assert!($g.coordinate_position(&qc) == cv(want), "coordinate_position differs from the exact point-set position");
+        assert!($g.intersects(&qc) == (want != Pos::Exterior), "intersects(Coord) differs from 'not exterior'");
+        assert!($g.contains(&qc) == (want == Pos::Interior), "contains(Coord) differs from 'in the interior'");
+        if $full {
+            let qp = Point(qc);
+            assert!($g.intersects(&qp) == (want != Pos::Exterior), "intersects(Point) differs from 'not exterior'");
+            assert!(qp.intersects(&$g) == (want != Pos::Exterior), "Point.intersects(g) is not symmetric");
+            assert!($g.contains(&qp) == (want == Pos::Interior), "contains(Point) differs from 'in the interior'");
+            assert!(qp.is_within(&$g) == (want == Pos::Interior), "Point.is_within(g) differs from g.contains(Point)");
+        }
+    }};
+}
+
+// ------------------------------------------------------------------ coordinate position & point queries
+
+pub fn pos_point<S: Src>(s: &mut S, n: i8, full: bool) {
+    let (a, q) = (gp(s, n), gp(s, n));
+    let g = Point(ci(a));
+    let want = if a == q { Pos::Interior } else { Pos::Exterior };
+    check_point_queries!(g, q, want, full);
+    assert!(ci(a).coordinate_position(&ci(q)) == cv(want), "Coord.coordinate_position");
+    vcover!(a == q, "query equals the point");
+}
+
+pub fn pos_line<S: Src>(s: &mut S, n: i8, full: bool) {
+    let (a, b, q) = (gp(s, n), gp(s, n), gp(s, n));
+    let g = line_i(a, b);
+    let want = line_pos(q, a, b);
+    check_point_queries!(g, q, want, full);
+    vcover!(a == b && q == a, "degenerate line queried at its point");
+    vcover!(a.0 == b.0 && a != b && want == Pos::Interior, "query inside a vertical segment");
+    vcover!(want == Pos::Boundary, "query at an endpoint");
+}
+
+pub fn pos_rect<S: Src>(s: &mut S, n: i8, full: bool) {
+    let (a, b, q) = (gp(s, n), gp(s, n), gp(s, n));
+    vassume!(a.0 != b.0 && a.1 != b.1); // valid rect has area
+    let g = Rect::new(ci(a), ci(b));
+    let mn = (a.0.min(b.0), a.1.min(b.1));
+    let mx = (a.0.max(b.0), a.1.max(b.1));
+    let want = rect_pos(q, mn, mx);
+    check_point_queries!(g, q, want, full);
+    vcover!(want == Pos::Boundary && q.0 == mx.0, "query on the right edge");
+    vcover!(q == mn, "query at the min corner");
+}
+
+/// `known`: None = whole domain; Some(true/false) = restricted to / excluding the class
+/// "query strictly inside a vertical edge" (see KNOWN_FINDINGS.txt, used only while listed)
+pub fn pos_triangle<S: Src>(s: &mut S, n: i8, full: bool) {
+    let (a, b, c, q) = (gp(s, n), gp(s, n), gp(s, n), gp(s, n));
+    vassume!(orient(a, b, c) != 0); // valid triangle
+    let g = Triangle(ci(a), ci(b), ci(c)); // either orientation
+    let want = tri_pos(q, a, b, c);
+    check_point_queries!(g, q, want, full);
+    vcover!(want == Pos::Boundary && a.0 == b.0 && in_open_segment(q, a, b), "query strictly inside a vertical edge");
+    vcover!(want == Pos::Boundary && a.1 == b.1 && in_open_segment(q, a, b), "query strictly inside a horizontal edge");
+    vcover!(q == c, "query at a vertex");
+    vcover!(orient(a, b, c) < 0 && want == Pos::Interior, "clockwise triangle, query inside");
+}
+
+fn simple3(a: P, b: P, c: P) -> bool {
+    a != b && b != c && !(orient(a, b, c) == 0 && (on_segment(c, a, b) || on_segment(a, b, c)))
+}
+
+pub fn pos_ls3<S: Src>(s: &mut S, n: i8, full: bool) {
+    let (a, b, c, q) = (gp(s, n), gp(s, n), gp(s, n), gp(s, n));
+    vassume!(simple3(a, b, c));
+    let pts = [a, b, c];
+    let g = ls_i(&pts);
+    let want = linestring_pos(q, &pts);
+    check_point_queries!(g, q, want, full);
+    vcover!(q == b, "query at the middle vertex");
+    vcover!(q == c, "query at the last endpoint");
+    vcover!(want == Pos::Interior && q != b && b.0 == c.0, "query inside a vertical second segment");
+    core::mem::forget(g);
+}
+
+pub fn pos_ls2<S: Src>(s: &mut S, n: i8, full: bool) {
+    let (a, b, q) = (gp(s, n), gp(s, n), gp(s, n));
+    vassume!(a != b);
+    let pts = [a, b];
+    let g = ls_i(&pts);
+    let want = linestring_pos(q, &pts);
+    check_point_queries!(g, q, want, full);
+    // representation invariance: Line vs 2-point LineString
+    assert!(line_i(a, b).coordinate_position(&ci(q)) == g.coordinate_position(&ci(q)), "Line and 2-point LineString disagree");
+    vcover!(want == Pos::Boundary, "query at an endpoint");
+    core::mem::forget(g);
+}
+
+/// closed 3-ring taken as a LineString: no boundary
+pub fn pos_ls4_closed<S: Src>(s: &mut S, n: i8, full: bool) {
+    let (a, b, c, q) = (gp(s, n), gp(s, n), gp(s, n), gp(s, n));
+    vassume!(orient(a, b, c) != 0);
+    let pts = [a, b, c, a];
+    let g = ls_i(&pts);
+    let want = linestring_pos(q, &pts);
+    check_point_queries!(g, q, want, full);
+    vcover!(q == a, "query at the closing vertex of a closed line string");
+    vcover!(want == Pos::Exterior && tri_pos(q, a, b, c) == Pos::Interior, "query enclosed by the ring but not on it");
+    core::mem::forget(g);
+}
+
+pub fn pos_ls4_open<S: Src>(s: &mut S, n: i8, full: bool) {
+    let (a, b, c, d, q) = (gp(s, n), gp(s, n), gp(s, n), gp(s, n), gp(s, n));
+    vassume!(simple3(a, b, c) && simple3(b, c, d) && a != d && !segs_share_point(a, b, c, d));
+    let pts = [a, b, c, d];
+    let g = ls_i(&pts);
+    let want = linestring_pos(q, &pts);
+    check_point_queries!(g, q, want, full);
+    vcover!(q == d, "query at the last endpoint");
+    vcover!(q == c, "query at an inner vertex");
+    core::mem::forget(g);
+}
+
+/// polygon with a simple 3-ring shell, any start vertex / direction
+pub fn pos_poly3<S: Src>(s: &mut S, n: i8, full: bool) {
+    let (a, b, c, q) = (gp(s, n), gp(s, n), gp(s, n), gp(s, n));
+    vassume!(orient(a, b, c) != 0);
+    let ring = [a, b, c, a];
+    let g = poly_i(&ring, &[]);
+    let want = tri_pos(q, a, b, c);
+    assert!(ring_pos(q, &ring) == want, "oracle self-check: crossing number vs half-planes");
+    check_point_queries!(g, q, want, full);
+    vcover!(want == Pos::Boundary && a.0 == b.0 && in_open_segment(q, a, b), "query strictly inside a vertical edge");
+    vcover!(want == Pos::Interior && orient(a, b, c) < 0, "clockwise shell, query inside");
+    vcover!(q == a, "query at the start/closing vertex");
+    core::mem::forget(g);
+}
+
+/// representation invariance: Geometry enum wrapper, Triangle vs its polygon form, singleton Multi*
+pub fn pos_wrappers<S: Src>(s: &mut S, n: i8) {
+    let (a, b, c, q) = (gp(s, n), gp(s, n), gp(s, n), gp(s, n));
+    vassume!(orient(a, b, c) != 0);
+    let want = cv(tri_pos(q, a, b, c));
+    let qc = ci(q);
+    let t = Triangle(ci(a), ci(b), ci(c));
+    let p = t.to_polygon();
+    assert!(p.coordinate_position(&qc) == want, "Triangle::to_polygon position");
+    let gp_ = Geometry::Polygon(p);
+    assert!(gp_.coordinate_position(&qc) == want, "Geometry::Polygon wrapper changes the position");
+    assert!(Geometry::Triangle(t).coordinate_position(&qc) == want, "Geometry::Triangle wrapper changes the position");
+    let l = Geometry::Line(line_i(a, b));
+    assert!(l.coordinate_position(&qc) == cv(line_pos(q, a, b)), "Geometry::Line wrapper changes the position");
+    vcover!(want == CoordPos::OnBoundary, "query on the boundary");
+    core::mem::forget(gp_);
+}
+
+pub fn pos_poly4<S: Src>(s: &mut S, n: i8, full: bool) {
+    let (a, b, c, d, q) = (gp(s, n), gp(s, n), gp(s, n), gp(s, n), gp(s, n));
+    let ring = [a, b, c, d, a];
+    vassume!(ring_is_simple(&ring));
+    let g = poly_i(&ring, &[]);
+    let want = ring_pos(q, &ring);
+    check_point_queries!(g, q, want, full);
+    vcover!(want == Pos::Interior && twice_area(&ring) < 0, "clockwise quadrilateral, query inside");
+    vcover!(want == Pos::Exterior && orient(a, b, c) * orient(b, c, d) < 0, "concave quadrilateral, query outside");
+    vcover!(want == Pos::Boundary && q != a && q != b && q != c && q != d, "query inside an edge");
+    core::mem::forget(g);
+}
+
+/// symbolic triangular shell around a concrete triangular hole
+pub fn pos_poly_hole<S: Src>(s: &mut S, n: i8, full: bool) {
+    let (a, b, c, q) = (gp(s, n), gp(s, n), gp(s, n), gp(s, n));
+    let hole: [P; 4] = [(-1, -1), (1, -1), (-1, 1), (-1, -1)];
+    vassume!(orient(a, b, c) != 0);
+    vassume!(tri_pos(hole[0], a, b, c) == Pos::Interior && tri_pos(hole[1], a, b, c) == Pos::Interior && tri_pos(hole[2], a, b, c) == Pos::Interior);
+    let shell = [a, b, c, a];
+    let g = poly_i(&shell, &[&hole]);
+    let want = polygon_pos(q, &shell, &[&hole]);
+    check_point_queries!(g, q, want, full);
+    vcover!(q == (-1, -1), "query at a hole vertex");
+    vcover!(q == (0, 0), "query inside an edge of the hole");
+    vcover!(want == Pos::Interior, "query in the polygon interior");
+    core::mem::forget(g);
+}
+
+pub fn pos_multipoint<S: Src>(s: &mut S) {
+    let (a, b, q) = (gp(s, 8), gp(s, 8), gp(s, 8));
+    let g = MultiPoint(vec![Point(ci(a)), Point(ci(b))]);
+    let want = if q == a || q == b { Pos::Interior } else { Pos::Exterior };
+    assert!(g.coordinate_position(&ci(q)) == cv(want), "MultiPoint position");
+    assert!(g.contains(&ci(q)) == (want == Pos::Interior), "MultiPoint contains(Coord)");
+    assert!(g.contains(&Point(ci(q))) == (want == Pos::Interior), "MultiPoint contains(Point)");
+    assert!(g.intersects(&ci(q)) == (want == Pos::Interior), "MultiPoint intersects(Coord)");
+    vcover!(q == b && a != b, "query equals the second member");
+    core::mem::forget(g);
+}
+
+/// two 2-point members; valid = they meet only at end points (mod-2 rule decides the boundary)
+/// `shared`: Some(false) = excluding / Some(true) = restricted to the class of the listed finding
+/// "query at an end point shared by an even number of members" (crate::known)
+pub fn pos_mls<S: Src>(s: &mut S, n: i8, shared: Option<bool>) {
+    let (a, b, c, d, q) = (gp(s, n), gp(s, n), gp(s, n), gp(s, n), gp(s, n));
+    vassume!(a != b && c != d);
+    // members may share end points, nothing else (no crossing, no T-junction, no overlap)
+    vassume!(!in_open_segment(a, c, d) && !in_open_segment(b, c, d) && !in_open_segment(c, a, b) && !in_open_segment(d, a, b));
+    let proper = orient(a, b, c) * orient(a, b, d) < 0 && orient(c, d, a) * orient(c, d, b) < 0;
+    vassume!(!proper);
+    vassume!(!((a == c && b == d) || (a == d && b == c))); // not the same segment twice
+    let g = MultiLineString(vec![ls_i(&[a, b]), ls_i(&[c, d])]);
+    // mod-2 rule: an end point of an odd number of members is boundary
+    let ends = (q == a) as u8 + (q == b) as u8 + (q == c) as u8 + (q == d) as u8;
+    if let Some(k) = shared {
+        vassume!(crate::known::mls_query_at_evenly_shared_endpoint(ends) == k);
+    }
+    let on = on_segment(q, a, b) || on_segment(q, c, d);
+    let want = if !on {
+        Pos::Exterior
+    } else if ends % 2 == 1 {
+        Pos::Boundary
+    } else {
+        Pos::Interior
+    };
+    assert!(g.coordinate_position(&ci(q)) == cv(want), "MultiLineString position (mod-2 boundary rule)");
+    assert!(g.intersects(&ci(q)) == on, "MultiLineString intersects(Coord)");
+    assert!(g.contains(&Point(ci(q))) == (want == Pos::Interior), "MultiLineString contains(Point) differs from 'in the interior' (mod-2 rule)");
+    if shared != Some(false) {
+        vcover!(ends == 2, "query at an end point shared by both members");
+    }
+    if shared != Some(true) {
+        vcover!(ends == 1, "query at an unshared end point");
+        vcover!(want == Pos::Interior, "query inside a member");
+    }
+    core::mem::forget(g);
+}
+
+/// two valid triangles with disjoint interiors that may touch at points; query anywhere
+pub fn pos_mpoly<S: Src>(s: &mut S, n: i8, touching: bool) {
+    let t1: [P; 4] = [(0, 0), (2, 0), (0, 2), (0, 0)];
+    // second member: concrete, either touching the first at the vertex (0,0) or apart
+    let t2: [P; 4] = if touching { [(0, 0), (-3, 0), (0, -3), (0, 0)] } else { [(-1, -1), (-4, -1), (-1, -4), (-1, -1)] };
+    let q = gp(s, n);
+    let g = MultiPolygon(vec![poly_i(&t1, &[]), poly_i(&t2, &[])]);
+    let (p1, p2) = (ring_pos(q, &t1), ring_pos(q, &t2));
+    let want = if p1 == Pos::Interior || p2 == Pos::Interior {
+        Pos::Interior
+    } else if p1 == Pos::Boundary || p2 == Pos::Boundary {
+        Pos::Boundary
+    } else {
+        Pos::Exterior
+    };
+    assert!(g.coordinate_position(&ci(q)) == cv(want), "MultiPolygon position");
+    assert!(g.intersects(&ci(q)) == (want != Pos::Exterior), "MultiPolygon intersects(Coord)");
+    assert!(g.contains(&ci(q)) == (want == Pos::Interior), "MultiPolygon contains(Coord)");
+    assert!(g.contains(&Point(ci(q))) == (want == Pos::Interior), "MultiPolygon contains(Point)");
+    vcover!(q == (0, 0), "query at the vertex (shared by both members when touching)");
+    vcover!(p2 == Pos::Interior, "query inside the second member");
+    core::mem::forget(g);
+}
+
+// ------------------------------------------------------------------ intersects between extended operands
+
+pub fn int_line_line<S: Src>(s: &mut S, n: i8) {
+    let (a, b, c, d) = (gp(s, n), gp(s, n), gp(s, n), gp(s, n));
+    let (l1, l2) = (line_i(a, b), line_i(c, d));
+    let want = segs_share_point(a, b, c, d);
+    assert!(l1.intersects(&l2) == want, "Line.intersects(Line) differs from 'share a point'");
+    assert!(l2.intersects(&l1) == want, "Line.intersects(Line) is not symmetric");
+    vcover!(want && orient(a, b, c) == 0 && orient(a, b, d) == 0 && a != b && c != d, "collinear overlap or abutting");
+    vcover!(a == b && want, "degenerate first operand on the second");
+    vcover!(!want && orient(a, b, c) == 0 && orient(a, b, d) == 0 && a != b, "collinear but disjoint");
+    vcover!(want && in_open_segment(c, a, b) && orient(a, b, d) != 0, "T-junction");
+}
+
+/// case-split on the first x coordinate: x(a) == x0
+pub fn int_line_rect<S: Src>(s: &mut S, n: i8, x0: i8) {
+    let a = gp_x(s, x0, x0, n);
+    let (b, c, d) = (gp(s, n), gp(s, n), gp(s, n));
+    vassume!(c.0 != d.0 && c.1 != d.1);
+    let l = line_i(a, b);
+    let r = Rect::new(ci(c), ci(d));
+    let mn = (c.0.min(d.0), c.1.min(d.1));
+    let mx = (c.0.max(d.0), c.1.max(d.1));
+    let corners = [mn, (mx.0, mn.1), mx, (mn.0, mx.1), mn];
+    // the rect is a filled region: segment meets it iff an endpoint is inside-or-on or it crosses an edge
+    let mut want = rect_pos(a, mn, mx) != Pos::Exterior || rect_pos(b, mn, mx) != Pos::Exterior;
+    let mut i = 0;
+    while i < 4 {
+        if segs_share_point(a, b, corners[i], corners[i + 1]) {
+            want = true;
+        }
+        i += 1;
+    }
+    assert!(r.intersects(&l) == want, "Rect.intersects(Line) differs from 'share a point'");
+    assert!(l.intersects(&r) == want, "Line.intersects(Rect) is not symmetric");
+    vcover!(want && rect_pos(a, mn, mx) == Pos::Exterior && rect_pos(b, mn, mx) == Pos::Exterior, "segment crosses the rect with both ends outside");
+    vcover!(!want, "disjoint");
+}
+
+pub fn int_rect_rect<S: Src>(s: &mut S) {
+    let (a, b, c, d) = (gp(s, 4), gp(s, 4), gp(s, 4), gp(s, 4));
+    let (r1, r2) = (Rect::new(ci(a), ci(b)), Rect::new(ci(c), ci(d)));
+    let ov = |lo1: W, hi1: W, lo2: W, hi2: W| lo1.max(lo2) <= hi1.min(hi2);
+    let want = ov(a.0.min(b.0), a.0.max(b.0), c.0.min(d.0), c.0.max(d.0)) && ov(a.1.min(b.1), a.1.max(b.1), c.1.min(d.1), c.1.max(d.1));
+    assert!(r1.intersects(&r2) == want, "Rect.intersects(Rect)");
+    assert!(r2.intersects(&r1) == want, "Rect.intersects(Rect) is not symmetric");
+    // contains: valid (positive-area) rects: b inside-or-equal a
+    if a.0 != b.0 && a.1 != b.1 && c.0 != d.0 && c.1 != d.1 {
+        let inside = a.0.min(b.0) <= c.0.min(d.0) && c.0.max(d.0) <= a.0.max(b.0) && a.1.min(b.1) <= c.1.min(d.1) && c.1.max(d.1) <= a.1.max(b.1);
+        assert!(r1.contains(&r2) == inside, "Rect.contains(Rect) differs from the subset test");
+        assert!(r2.is_within(&r1) == inside, "Rect.is_within(Rect) differs from contains flipped");
+        vcover!(inside && r1 != r2, "strictly nested or sharing an edge");
+    }
+    vcover!(want && a.0.max(b.0) == c.0.min(d.0), "rects touching along x");
+}
+
+pub fn int_line_triangle<S: Src>(s: &mut S, n: i8) {
+    let (p, q) = (gp(s, n), gp(s, n));
+    // concrete valid triangle, symbolic segment
+    let (a, b, c): (P, P, P) = ((-1, -1), (2, -1), (-1, 2));
+    let t = Triangle(ci(a), ci(b), ci(c));
+    let l = line_i(p, q);
+    let want = tri_pos(p, a, b, c) != Pos::Exterior
+        || tri_pos(q, a, b, c) != Pos::Exterior
+        || segs_share_point(p, q, a, b)
+        || segs_share_point(p, q, b, c)
+        || segs_share_point(p, q, c, a);
+    assert!(l.intersects(&t) == want, "Line.intersects(Triangle) differs from 'share a point'");
+    assert!(t.intersects(&l) == want, "Triangle.intersects(Line) is not symmetric");
+    vcover!(want && tri_pos(p, a, b, c) == Pos::Exterior && tri_pos(q, a, b, c) == Pos::Exterior, "segment crosses the triangle with both ends outside");
+    vcover!(!want, "disjoint");
+}
+
+pub fn int_ls_line<S: Src>(s: &mut S, n: i8) {
+    let (a, b, c, p, q) = (gp(s, n), gp(s, n), gp(s, n), gp(s, n), gp(s, n));
+    vassume!(simple3(a, b, c));
+    let g = ls_i(&[a, b, c]);
+    let l = line_i(p, q);
+    let want = segs_share_point(a, b, p, q) || segs_share_point(b, c, p, q);
+    assert!(g.intersects(&l) == want, "LineString.intersects(Line) differs from 'share a point'");
+    assert!(l.intersects(&g) == want, "Line.intersects(LineString) is not symmetric");
+    vcover!(want && !segs_share_point(a, b, p, q), "only the second segment is met");
+    vcover!(!want, "disjoint");
+    core::mem::forget(g);
+}
+
+pub fn int_poly_line<S: Src>(s: &mut S, n: i8) {
+    let (p, q) = (gp(s, n), gp(s, n));
+    // concrete valid polygon with a hole, symbolic segment
+    let shell: [P; 5] = [(-3, -3), (3, -3), (3, 3), (-3, 3), (-3, -3)];
+    let hole: [P; 4] = [(-1, -1), (2, -1), (-1, 2), (-1, -1)];
+    let g = poly_i(&shell, &[&hole]);
+    let l = line_i(p, q);
+    // a segment meets the polygon iff an end point is not exterior or it meets some ring edge
+    let mut want = polygon_pos(p, &shell, &[&hole]) != Pos::Exterior || polygon_pos(q, &shell, &[&hole]) != Pos::Exterior;
+    let mut i = 0;
+    while i < 4 {
+        if segs_share_point(p, q, shell[i], shell[i + 1]) {
+            want = true;
+        }
+        i += 1;
+    }
+    i = 0;
+    while i < 3 {
+        if segs_share_point(p, q, hole[i], hole[i + 1]) {
+            want = true;
+        }
+        i += 1;
+    }
+    assert!(g.intersects(&l) == want, "Polygon.intersects(Line) differs from 'share a point'");
+    assert!(l.intersects(&g) == want, "Line.intersects(Polygon) is not symmetric");
+    vcover!(!want && ring_pos(p, &shell) == Pos::Interior, "segment (possibly degenerate) entirely inside the hole");
+    vcover!(want, "meets");
+    core::mem::forget(g);
+}
+
+// ------------------------------------------------------------------ direct Contains impls
+
+/// s=[p,q] (p != q) is covered by the union of the segments `segs`: every unit sub-interval of the
+/// projection on the non-constant axis lies in a collinear segment (vertices are lattice points)
+fn seg_covered(p: P, q: P, segs: &[(P, P)], n: W) -> bool {
+    let vertical = p.0 == q.0;
+    let (lo, hi) = if vertical { (p.1.min(q.1), p.1.max(q.1)) } else { (p.0.min(q.0), p.0.max(q.0)) };
+    let mut k = -n;
+    while k < n {
+        if lo <= k && k + 1 <= hi {
+            let mut ok = false;
+            let mut i = 0;
+            while i < segs.len() {
+                let (a, b) = segs[i];
+                if orient(p, q, a) == 0 && orient(p, q, b) == 0 {
+                    let (l2, h2) = if vertical { (a.1.min(b.1), a.1.max(b.1)) } else { (a.0.min(b.0), a.0.max(b.0)) };
+                    if l2 <= k && k + 1 <= h2 {
+                        ok = true;
+                    }
+                }
+                i += 1;
+            }
+            if !ok {
+                return false;
+            }
+        }
+        k += 1;
+    }
+    true
+}
+
+pub fn con_line_line<S: Src>(s: &mut S, n: i8) {
+    let (a, b, c, d) = (gp(s, n), gp(s, n), gp(s, n), gp(s, n));
+    vassume!(a != b); // valid container
+    let (l1, l2) = (line_i(a, b), line_i(c, d));
+    // T*****FF*: l2 within l1 and interiors meet
+    let want = if c == d { line_pos(c, a, b) == Pos::Interior } else { on_segment(c, a, b) && on_segment(d, a, b) };
+    assert!(l1.contains(&l2) == want, "Line.contains(Line) differs from the DE-9IM mask");
+    assert!(l2.is_within(&l1) == want, "Line.is_within(Line) differs from contains flipped");
+    vcover!(want && c != d && (c == a || d == a), "contained segment shares an end point");
+    vcover!(c == d && c == a, "degenerate operand at the container's end point (boundary only)");
+}
+
+pub fn con_ls_line<S: Src>(s: &mut S, n: i8) {
+    let (a, b, c, p, q) = (gp(s, n), gp(s, n), gp(s, n), gp(s, n), gp(s, n));
+    vassume!(simple3(a, b, c) && p != q);
+    let g = ls_i(&[a, b, c]);
+    let l = line_i(p, q);
+    let want = seg_covered(p, q, &[(a, b), (b, c)], n as W);
+    assert!(g.contains(&l) == want, "LineString.contains(Line) differs from the DE-9IM mask");
+    assert!(l.is_within(&g) == want, "Line.is_within(LineString) differs from contains flipped");
+    vcover!(want && in_open_segment(b, p, q), "contained segment runs through the middle vertex (collinear line string)");
+    vcover!(want, "contained");
+    core::mem::forget(g);
+}
+
+pub fn con_line_ls<S: Src>(s: &mut S, n: i8) {
+    let (a, b, c, p, q) = (gp(s, n), gp(s, n), gp(s, n), gp(s, n), gp(s, n));
+    vassume!(simple3(a, b, c) && p != q);
+    let g = ls_i(&[a, b, c]);
+    let l = line_i(p, q);
+    let want = on_segment(a, p, q) && on_segment(b, p, q) && on_segment(c, p, q);
+    assert!(l.contains(&g) == want, "Line.contains(LineString) differs from the DE-9IM mask");
+    assert!(g.is_within(&l) == want, "LineString.is_within(Line) differs from contains flipped");
+    vcover!(want, "contained (collinear line string)");
+    core::mem::forget(g);
+}
+
+pub fn con_ls_ls<S: Src>(s: &mut S, n: i8) {
+    let (a, b, c, p, q, r) = (gp(s, n), gp(s, n), gp(s, n), gp(s, n), gp(s, n), gp(s, n));
+    vassume!(simple3(a, b, c) && simple3(p, q, r));
+    let g = ls_i(&[a, b, c]);
+    let h = ls_i(&[p, q, r]);
+    let segs = [(a, b), (b, c)];
+    let want = seg_covered(p, q, &segs, n as W) && seg_covered(q, r, &segs, n as W);
+    assert!(g.contains(&h) == want, "LineString.contains(LineString) differs from the DE-9IM mask");
+    assert!(h.is_within(&g) == want, "LineString.is_within(LineString) differs from contains flipped");
+    vcover!(want && (p, q, r) != (a, b, c), "contained, not identical");
+    core::mem::forget(g);
+    core::mem::forget(h);
+}
+
+/// MultiPolygon ⊇ MultiPoint: no point exterior and at least one interior
+pub fn con_mpoly_mpoint<S: Src>(s: &mut S, n: i8) {
+    let t1: [P; 4] = [(0, 0), (3, 0), (0, 3), (0, 0)];
+    let t2: [P; 4] = [(-1, -1), (-3, -1), (-1, -3), (-1, -1)];
+    let (p, q) = (gp(s, n), gp(s, n));
+    let g = MultiPolygon(vec![poly_i(&t1, &[]), poly_i(&t2, &[])]);
+    let mp = MultiPoint(vec![Point(ci(p)), Point(ci(q))]);
+    let pos = |x: P| {
+        let (p1, p2) = (ring_pos(x, &t1), ring_pos(x, &t2));
+        if p1 == Pos::Interior || p2 == Pos::Interior {
+            Pos::Interior
+        } else if p1 == Pos::Boundary || p2 == Pos::Boundary {
+            Pos::Boundary
+        } else {
+            Pos::Exterior
+        }
+    };
+    let (pp, pq) = (pos(p), pos(q));
+    let want = pp != Pos::Exterior && pq != Pos::Exterior && (pp == Pos::Interior || pq == Pos::Interior);
+    assert!(g.contains(&mp) == want, "MultiPolygon.contains(MultiPoint) differs from the DE-9IM mask T*****FF*");
+    assert!(mp.is_within(&g) == want, "MultiPoint.is_within(MultiPolygon) differs from contains flipped");
+    vcover!(pp == Pos::Interior && pq == Pos::Boundary, "multi-point partly on the boundary");
+    vcover!(pp == Pos::Boundary && pq == Pos::Boundary, "multi-point entirely on the boundary");
+    core::mem::forget(g);
+    core::mem::forget(mp);
+}
+
+harnesses! {
+    // ---- position + Coord queries on the larger grid; all seven query forms on the small grid
+    fn c02_pos_point(s) { pos_point(s, 8, true) }
+    fn c02_pos_line_g4(s) { pos_line(s, 4, false) }
+    fn c02_pos_line_g2_full(s) { pos_line(s, 2, true) }
+    fn c02_pos_rect_g4(s) { pos_rect(s, 4, true) }
+    #[kani::unwind(5)] fn c02_pos_triangle_g4(s) { pos_triangle(s, 4, false) }
+    #[kani::unwind(5)] fn c02_pos_triangle_g1_full(s) { pos_triangle(s, 1, true) }
+    #[kani::unwind(5)] fn c02_pos_ls2_g4(s) { pos_ls2(s, 4, false) }
+    #[kani::unwind(5)] fn c02_pos_ls2_g2_full(s) { pos_ls2(s, 2, true) }
+    #[kani::unwind(5)] fn c02_pos_ls3_g3(s) { pos_ls3(s, 3, false) }
+    #[kani::unwind(5)] fn c02_pos_ls3_g2_full(s) { pos_ls3(s, 2, true) }
+    #[kani::unwind(6)] fn c02_pos_ls4_closed_g3(s) { pos_ls4_closed(s, 3, false) }
+    #[kani::unwind(6)] fn c02_pos_ls4_closed_g1_full(s) { pos_ls4_closed(s, 1, true) }
+    #[kani::unwind(6)] fn c02_pos_ls4_open_g2(s) { pos_ls4_open(s, 2, false) }
+    #[kani::unwind(6)] fn c02_pos_poly3_g3(s) { pos_poly3(s, 3, false) }
+    #[kani::unwind(6)] fn c02_pos_poly3_g1_full(s) { pos_poly3(s, 1, true) }
+    #[kani::unwind(7)] fn c02_pos_poly4_g2(s) { pos_poly4(s, 2, false) }
+    #[kani::unwind(6)] fn c02_pos_poly_hole_g3(s) { pos_poly_hole(s, 3, false) }
+    #[kani::unwind(6)] fn c02_pos_poly_hole_g4(s) { pos_poly_hole(s, 4, false) }
+    #[kani::unwind(6)] fn c02_pos_wrappers_g2(s) { pos_wrappers(s, 2) }
+    #[kani::unwind(4)] fn c02_pos_multipoint(s) { pos_multipoint(s) }
+    #[kani::unwind(4)] fn c02_pos_mls_g3(s) { pos_mls(s, 3, Some(false)) }
+    #[kani::unwind(4)] fn c02_pos_mls_g3_kf_shared_endpoint(s) { pos_mls(s, 3, Some(true)) }
+    #[kani::unwind(10)] fn c02_pos_mpoly_touching(s) { pos_mpoly(s, 4, true) }
+    #[kani::unwind(10)] fn c02_pos_mpoly_apart(s) { pos_mpoly(s, 4, false) }
+
+    fn c02_int_line_line_g4(s) { int_line_line(s, 4) }
+    #[kani::unwind(6)] fn c02_int_line_rect_g2_x0(s) { int_line_rect(s, 2, -2) }
+    #[kani::unwind(6)] fn c02_int_line_rect_g2_x1(s) { int_line_rect(s, 2, -1) }
+    #[kani::unwind(6)] fn c02_int_line_rect_g2_x2(s) { int_line_rect(s, 2, 0) }
+    #[kani::unwind(6)] fn c02_int_line_rect_g2_x3(s) { int_line_rect(s, 2, 1) }
+    #[kani::unwind(6)] fn c02_int_line_rect_g2_x4(s) { int_line_rect(s, 2, 2) }
+    fn c02_int_rect_rect(s) { int_rect_rect(s) }
+    #[kani::unwind(6)] fn c02_int_line_triangle_g3(s) { int_line_triangle(s, 3) }
+    #[kani::unwind(5)] fn c02_int_ls_line_g2(s) { int_ls_line(s, 2) }
+    #[kani::unwind(7)] fn c02_int_poly_line_g3(s) { int_poly_line(s, 3) }
+
+    fn c02_con_line_line_g4(s) { con_line_line(s, 4) }
+    #[kani::unwind(7)] fn c02_con_ls_line_g2(s) { con_ls_line(s, 2) }
+    #[kani::unwind(7)] fn c02_con_line_ls_g2(s) { con_line_ls(s, 2) }
+    #[kani::unwind(7)] fn c02_con_ls_ls_g2(s) { con_ls_ls(s, 2) }
+    #[kani::unwind(10)] fn c02_con_mpoly_mpoint_g4(s) { con_mpoly_mpoint(s, 4) }
+
+    #[kani::unwind(5)] fn c02_sanity_must_fail(s) {
+        pos_ls3(s, 2, false);
+        assert!(false, "sanity twin reached its end");
+    }
+}
